@@ -114,8 +114,8 @@ Proof.
   destruct (size_in_root sz n) eqn:Ein.
   - apply ERT_bit. exact Hroot.
   - apply ERT_bit. eapply ERT_then; [apply ERT_align|].
-    eapply ERT_bind; [apply (ERT_len_single n); lia|]. cbv beta. unfold n. rewrite Nat2Z.id.
-    apply (ERT_fmap _ _ VBytes (norm_bytes bytes)); [|reflexivity]. apply ERT_bytes.
+    apply (ERT_fmap _ _ VBytes (norm_bytes bytes)); [|reflexivity].
+    apply (ERT_frag _ _ (fun b => b mod 256)). apply ERT_byte.
 Qed.
 
 (** ** Known-multiplier character strings: power-of-two character widths
@@ -356,8 +356,8 @@ Section PCompositeRT.
     destruct (size_in_root sz n) eqn:Ein.
     - apply ERT_bit. exact Hroot.
     - apply ERT_bit. eapply ERT_then; [apply ERT_align|].
-      eapply ERT_bind; [apply (ERT_len_single n); lia|]. cbv beta. unfold n. rewrite Nat2Z.id.
-      apply (ERT_fmap _ _ VList (map (normT elem) vs)); [exact Hall | reflexivity].
+      apply (ERT_fmap _ _ VList (map (normT elem) vs)); [|reflexivity].
+      apply ERT_frag. intros a. apply HT.
   Qed.
 
   (** CHOICE *)
